@@ -23,7 +23,9 @@ BY2 = {"n": 13, "tag": 94}
 TARGET = "target-ключ-é"
 
 OPS = ["write", "write_existing_content", "write_hash", "writer_session", "writer_session_mmap", "read", "read_hash", "stream", "copy", "copy_hash", "hard_link", "metadata", "list",
-       "remove", "remove_hash", "remove_fully", "clear", "exists", "link_to", "link_to_hash"]
+       "remove", "remove_hash", "remove_fully", "clear", "exists", "link_to", "link_to_hash",
+       "writer_rejected_short", "writer_rejected_overflow"]
+REJECTED = ("writer_rejected_short", "writer_rejected_overflow")   # a clean run of these ends with SizeMismatch (memory-mapped temp file cut / left)
 WRITES = ("write", "write_existing_content", "write_hash", "writer_session", "writer_session_mmap", "remove", "remove_hash", "remove_fully", "link_to", "link_to_hash")
 
 
@@ -53,6 +55,14 @@ def program(op, cache, dest, side):
             opts["size"] = NEW["n"]
         h = {"ref": 0}
         return [{"op": ("sw_" if s else "aw_") + "open", "cache": cache, "key": TARGET, "opts": opts},
+                {"op": "w_write_all", "h": h, "data": {"gen": [NEW["n"], NEW["tag"], 0, 10]}},
+                {"op": "w_write_all", "h": h, "data": {"gen": [NEW["n"], NEW["tag"], 10, NEW["n"] - 10]}}, {"op": "w_commit", "h": h}]
+    if op in REJECTED:
+        # declared size (memory-mapped temp file) that the writer misses: fewer bytes / more bytes in a later chunk
+        opts = {"time": "78", "size": NEW["n"] + 5 if op.endswith("short") else NEW["n"] - 4}
+        h = {"ref": 0}
+        # (the async keyed writer never maps its temp file; the async by-address writer does)
+        return [{"op": ("sw_" if s else "aw_") + "open", "cache": cache, **({"key": TARGET} if s else {}), "opts": opts},
                 {"op": "w_write_all", "h": h, "data": {"gen": [NEW["n"], NEW["tag"], 0, 10]}},
                 {"op": "w_write_all", "h": h, "data": {"gen": [NEW["n"], NEW["tag"], 10, NEW["n"] - 10]}}, {"op": "w_commit", "h": h}]
     if op == "read":
@@ -114,6 +124,10 @@ def new_models(op, old, window):
         new = old.clone()
         new.write("second-key", sri(OLD), ref.gen(OLD["n"], OLD["tag"]), size=OLD["n"], time=window)
         out = [new]
+    elif op in REJECTED:
+        mid = old.clone()
+        mid.content[sri(NEW)] = d      # the bytes of a rejected commit may or may not stay retrievable by address
+        out = [mid]
     elif op in ("write_hash", "link_to_hash"):
         new = old.clone()
         new.content[sri(NEW)] = d
@@ -243,8 +257,9 @@ def worker(ctx, job):
         res["evals"] += 1
         out = fsx.replies(rep, 0)
         replay = {"engine": "fsx", "mode": "fault", "scenario": sc, "faults": []}
-        if rep["status"] != "ok" or not out or "ok" not in out[-1]:
-            V.violation(res, "fault:%s/%s:clean-run-%s" % (op, flavour, classify(out[-1]) if out else rep["status"]), "fault-free run failed: %r" % (out[-1:] or rep.get("error")), replay)
+        clean_ok = bool(out) and (("ok" in out[-1]) if op not in REJECTED else out[-1].get("err", {}).get("variant") == "SizeMismatch")
+        if rep["status"] != "ok" or not clean_ok:
+            V.violation(res, "fault:%s/%s:clean-run-%s" % (op, flavour, classify(out[-1]) if out else rep["status"]), "fault-free run did not end as expected: %r" % (out[-1:] or rep.get("error")), replay)
         res["probe"] = {"sc": sc, "steps": [{"sys": s["sys"], "len": s["len"], "flags": s["flags"], "index": "/index-v5/" in (s.get("fd_path") or "")} for s in rep["steps"] if s.get("step") is not None],
                         "trace": fsx.sys_trace(rep, [cache, destdir])}
         return res
@@ -285,6 +300,9 @@ def worker(ctx, job):
             pass  # every entry is the operated object: only validity of what is left is checked
         else:
             cands = [old] + cands_new
+            if "ok" in last and op in REJECTED:
+                V.violation(res, sigp + ":rejected-commit-succeeded", "after fault %s a commit that misses its declared size returned %r" % (fdesc, last), replay)
+                continue
             if "ok" in last and op in WRITES:
                 cands = cands_new[-1:]   # success must be truthful: the full effect is there
             okc = None
@@ -322,6 +340,18 @@ def worker(ctx, job):
         res["transitions"] += len(reps)
         t_end = int(time.time() * 1000) + 2
         tolerated = False
+        if op in REJECTED:
+            if reps[-1].get("err", {}).get("variant") != "SizeMismatch":
+                V.violation(res, sigp + ":retry:" + classify(reps[-1]), "after fault %s the same call without faults gives %r instead of SizeMismatch" % (fdesc, reps[-1]), replay)
+                continue
+            ok_any = False
+            for fm_ in [old] + new_models(op, old, window):
+                scratch = V.new()
+                observe_and_check(ctx, scratch, ctx.srv("sync"), "sync", cache, fm_, keys_, addrs, sig_prefix="x", replay={})
+                ok_any = ok_any or not scratch["violations"]
+            if not ok_any:
+                V.violation(res, "%s:retry-state" % sigp, "after fault %s and the retried (rejected) commit the cache is in no admissible state" % fdesc, replay)
+            continue
         if "ok" not in reps[-1]:
             # legitimate when the faulted call took partial effect and the call is then about something gone
             if op == "remove_hash" and "ok" not in last:
